@@ -417,6 +417,113 @@ def Col.concat : Col → Col → KOut Col
     | .panic => .panic
   | _, _ => .err
 
+/-! ### String kernels: LIKE, substring, replace, repeat -/
+
+/-- Tokens of a LIKE pattern after `like_to_regex`. -/
+inductive LTok where
+  | lit (c : Char)
+  | one        -- one character
+  | star       -- any run of characters
+  deriving Repr, DecidableEq
+
+/-- Matcher. `nl = true`: `one`/`star` match every character (SQL); `nl = false`: they do not
+match a line feed (the `regex` crate's `.` without the `s` flag). -/
+def matchT (nl : Bool) : List LTok → List Char → Bool
+  | [], [] => true
+  | [], _ :: _ => false
+  | .lit c :: ts, x :: xs => c == x && matchT nl ts xs
+  | .one :: ts, x :: xs => (nl || x != '\n') && matchT nl ts xs
+  | .star :: ts, [] => matchT nl ts []
+  | .star :: ts, x :: xs => matchT nl ts (x :: xs) || ((nl || x != '\n') && matchT nl (.star :: ts) xs)
+  | .lit _ :: _, [] => false
+  | .one :: _, [] => false
+termination_by ts xs => ts.length + xs.length
+
+/-- SQL LIKE: `%` any run, `_` one character, everything else literally. -/
+def likeSpecToks (p : List Char) : List LTok :=
+  p.map fun c => if c == '%' then .star else if c == '_' then .one else .lit c
+
+/-- What `like_to_regex` + the regex engine make of the pattern, for patterns over the modelled
+alphabet: `%` → `.*`, `_` → `.`, and every other character is pushed UNESCAPED, so a `.` in the
+pattern is a regex wildcard too. -/
+def likeImplToks (p : List Char) : List LTok :=
+  p.map fun c => if c == '%' then .star else if c == '_' || c == '.' then .one else .lit c
+
+/-- Characters of a pattern whose regex meaning is modelled. -/
+def likeCharOk (c : Char) : Bool :=
+  c.isAlphanum || c == ' ' || c == '%' || c == '_' || c == '.' || c == '-' || c == '(' || c == '\n'
+
+/-- `Regex::new(..).unwrap()`: an unclosed group is a syntax error, i.e. a panic. -/
+def likePanics (p : List Char) : Bool := p.contains '('
+
+def likeImpl (p s : String) : Bool := matchT false (likeImplToks p.toList) s.toList
+def likeSpec (p s : String) : Bool := matchT true (likeSpecToks p.toList) s.toList
+
+/-- `ArrayImpl::like`: `clear_null(unary_op(a, |s| regex.is_match(s)))`; the regex is compiled
+(and may panic) before any row is looked at. -/
+def likeK (p : String) (a : Arr String) : KOut (Arr Bool) :=
+  if likePanics p.toList then .panic
+  else .ok (clearNull (a.map fun s => ⟨s.valid, likeImpl p s.raw⟩))
+
+def satI32 (x : Int) : Int :=
+  if x < -2147483648 then -2147483648 else if x > 2147483647 then 2147483647 else x
+
+/-- The closure of `ArrayImpl::substring`. -/
+def substrF (s : String) (b c : Int) : String :=
+  let chars : Int := s.length
+  let start0 := if b ≥ 0 then b - 1 else chars + b
+  let end0 := satI32 (start0 + c)
+  let (start, end_) := if start0 > end0 then (end0, start0) else (start0, end0)
+  let skip := if start > 0 then start else 0
+  let take := if end_ - skip > 0 then end_ - skip else 0
+  String.ofList ((s.toList.drop skip.toNat).take take.toNat)
+
+/-- `ternary_op`: goes through `iter()` and a builder (NULL-strict, default raw under NULL,
+zips to the shortest input). -/
+def ternaryOp {α β γ δ} (d : δ) (f : α → β → γ → δ) : Arr α → Arr β → Arr γ → Arr δ
+  | a :: as, b :: bs, c :: cs =>
+    (if a.valid && b.valid && c.valid then ⟨true, f a.raw b.raw c.raw⟩ else ⟨false, d⟩)
+      :: ternaryOp d f as bs cs
+  | _, _, _ => []
+
+def replaceGo (frm to : List Char) : Nat → List Char → List Char
+  | 0, s => s
+  | _, [] => []
+  | fuel + 1, c :: cs =>
+    if frm.isPrefixOf (c :: cs) then to ++ replaceGo frm to fuel ((c :: cs).drop frm.length)
+    else c :: replaceGo frm to fuel cs
+
+/-- `str::replace(from, to)`. -/
+def replaceF (frm to s : String) : String :=
+  if frm.isEmpty then String.ofList (to.toList ++ s.toList.flatMap fun c => c :: to.toList)
+  else String.ofList (replaceGo frm.toList to.toList (s.length + 1) s.toList)
+
+/-- The closure of `ArrayImpl::repeat`: `for _ in 0..n { res += a }`. -/
+def repeatF (s : String) (n : Int) : String :=
+  String.ofList ((List.replicate n.toNat s.toList).flatten)
+
+def Col.like (p : String) : Col → KOut Col
+  | .str a => (likeK p a).map .bool
+  | _ => .err
+
+def Col.substring : Col → Col → Col → KOut Col
+  | .str a, .int .w32 b, .int .w32 c => .ok (.str (ternaryOp "" substrF a b c))
+  | _, _, _ => .err
+
+/-- `unary_op(a, |s| s.replace(from, to))` (raw computed under NULL too; cannot fault). -/
+def Col.replace (frm to : String) : Col → KOut Col
+  | .str a => .ok (.str (a.map fun s => ⟨s.valid, replaceF frm to s.raw⟩))
+  | _ => .err
+
+/-- `binary_op(a, b, repeat)`: computed on the raw values of EVERY slot. -/
+def Col.repeat_ : Col → Col → KOut Col
+  | .str a, .int .w32 b =>
+    match binaryOp (fun s n => KOut.ok (repeatF s n)) a b with
+    | .ok c => .ok (.str c)
+    | .err => .err
+    | .panic => .panic
+  | _, _ => .err
+
 /-! ### The invariant the bool kernels rely on -/
 
 /-- Raw bit is `false` under every NULL slot. -/
